@@ -267,7 +267,7 @@ def run(ctx):
     ctx.run_enum('ioctl', io, prop_ioctl, exhaustive_label=None if q else 'ioctl: every length, every group, every number, every direction')
     strat = st.fixed_dictionaries({'dir': st.sampled_from(dirs), 'group': st.integers(0, 255), 'num': st.integers(0, 255),
                                    'len': st.integers(0, 0x1fff)})
-    ctx.run_given('ioctl', strat, prop_ioctl, ctx.n(1000, 4000))
+    ctx.run_given('ioctl', strat, prop_ioctl, ctx.n(1000, 20000))
     fam = st.sampled_from(sorted(FAMILIES))
     ctx.run_given('word', st.fixed_dictionaries({'family': fam, 'value': st.one_of(S.u64, S.u32, st.integers(0, 0xffff))}),
-                  prop_word, ctx.n(1500, 6000))
+                  prop_word, ctx.n(1500, 30000))
